@@ -12,7 +12,7 @@ actual printed line) in the kernel for every one of the 432 cells.
 namespace GoPlugin.Props.C14
 open GoPlugin Interop
 
-def pGood : Handshake.Params := ⟨true, true, 4, 50, 1⟩
+def pGood : Handshake.Params := ⟨true, true, 4, 50, 1, true⟩
 def iGood : Interop.Params := ⟨true, true⟩
 
 /-- **The whole matrix**: in every cell the composition of the plugin's printed line, the host's
